@@ -250,8 +250,9 @@ def close(chk, crate, name):
             none_edges.append((i, ed.get(0)))
             some_edges.append((i, ed["else"]))
         elif e[0] == "discr" and strip_ref(e[1])[0] == "call" and strip_ref(e[1])[1] == HM + "remove":
-            none_edges.append((i, ed.get(0)))
-            some_edges.append((i, ed.get(1, ed["else"])))
+            # `match` lists both variants; `let Some(x) = .. else` / `if let` list one and use the fall-through
+            none_edges.append((i, ed[0] if 0 in ed else ed["else"]))
+            some_edges.append((i, ed[1] if 1 in ed else ed["else"]))
     if not chk.require(len(none_edges) == 1 and none_edges[0][1] is not None, "C07-b/unknown-token-test", name,
                        "the result of the token lookup is not tested exactly once (found %d tests)" % len(none_edges),
                        "", f.sp(rbb)):
